@@ -5,7 +5,7 @@
    Spec/Names.v (events, unbound_uses, duplicate_decls, unused_decls) and Spec/Typing.v (valid) on
    the implementation's diagnostics; the theorems below tie the tables the checker model uses to
    the code and prove the name bookkeeping of the model. *)
-From NS Require Import Check CheckProofs NamesProofs Names NamesScript.
+From NS Require Import Check CheckProofs NamesProofs Names NamesScript Typing ValidProofs.
 From NS Require Tables.
 
 (* severities and built-in signatures are the ones the code declares (tables regenerated from
@@ -41,8 +41,17 @@ Theorem C16_program_names : forall p s,
   /\ unused_diags (cs_diags s) = unused_decls [] (events p).
 Proof. exact check_program_names. Qed.
 
+(* no false error, expression level: an expression that has the type its position requires by the
+   declarative rules of Spec/Typing.v (declared variable types, literal forms, + and - on two numbers
+   or two monetaries, [asset number] monetaries) is checked without ANY diagnostic, whatever the
+   state of the checker, as long as the declarations it holds are those of the type environment *)
+Theorem C16_expression_no_false_error : forall te e t s,
+  agrees te s -> has_type te e t = true -> silent (check_expression e t s) s.
+Proof. exact has_type_silent. Qed.
+
 Print Assumptions C16_severity_table.
 Print Assumptions C16_program_names.
+Print Assumptions C16_expression_no_false_error.
 Print Assumptions C16_expression_names.
 
 Example C16_example :
